@@ -203,7 +203,18 @@ def _build(rng, n, kind, size, chunk, point, release, sib):
     else:
         rspec["credit"] = "auto"
     blob = bytearray(client_preface(fb, rspec))
-    blob += fb.headers(sid, [(b":method", b"GET"), (b":scheme", b"http"), (b":path", b"/t%d" % tag), (b":authority", b"h")], end_stream=True)
+    unread = 0
+    if release in ("rst", "eof", "reset") and rng.random() < 0.35:
+        # the request is an upload the application never reads: its receive queue is (all but) full of body messages when the release comes,
+        # so whatever the server still wants to tell the application (the disconnect) has no room - and must not hold up the release
+        unread = rng.choice([9, 10, 10])
+        script.pop(0)
+        blob += fb.headers(sid, [(b":method", b"POST"), (b":scheme", b"http"), (b":path", b"/t%d" % tag), (b":authority", b"h")], end_stream=False)
+        for j in range(unread):
+            blob += fb.data(sid, b"u%02d" % j, end_stream=False)
+        truth["unread"] = unread
+    else:
+        blob += fb.headers(sid, [(b":method", b"GET"), (b":scheme", b"http"), (b":path", b"/t%d" % tag), (b":authority", b"h")], end_stream=True)
     sibs = []
     for k in range(sib):
         ssid = 3 + 2 * k
@@ -255,7 +266,7 @@ def _build(rng, n, kind, size, chunk, point, release, sib):
     client += [["settle"]]
     if sibs and kind == "h2.pause":
         pass
-    return {"family": "%s.%s.%s.sib%d" % (kind, point, release, sib), "backends": ["asyncio", "trio"],
+    return {"family": "%s.%s.%s.sib%d%s" % (kind, point, release, sib, ".unread-upload" if unread else ""), "backends": ["asyncio", "trio"],
             "config": {"keep_alive_timeout": 5000}, "conn": {},
             "apps": {"default": [["recv_until_end"], ["respond", 200, [], b"d"]], "by_tag": by_tag},
             "client": client, "reactor": rspec, "truth": truth,
